@@ -194,7 +194,9 @@ def literal_alphabet(patterns):
         'digits': DIG_ASCII + DIG_OTHER[:1],
         'ws': list(WS_ALL),
         'punct': sorted(set(c for c in chars if not c.isalnum() and not c.isspace()) | {'.', ':', '-'}),
-        'foreign': ['q', 'Q', 'é', 'İ'],
+        # a letter no code uses, an accented one, a dotted capital I - and the invisible characters other languages' trim() or a
+        # spreadsheet export deals in: byte-order mark, zero-width space / joiner, soft hyphen, left-to-right mark, word joiner
+        'foreign': ['q', 'Q', 'é', 'İ', '\ufeff', '\u200b', '\u200d', '\u00ad', '\u200e', '\u2060'],
     }
 
 
